@@ -215,6 +215,10 @@ def checkRs (exp : List GItem) (rs : List String) (i : Nat := 0) : Option String
         else if items = exp then checkRs exp rest (i + 1)
         else some ("records-differ cfg" ++ toString i)
 
+/-- the records are in the domain of the `…_records_any_buffering` theorems -/
+def textRec (fq : Bool) (g : GRec) : Bool :=
+  if fq then decide (TextFq (toFq g)) else decide (TextFa (toFa g))
+
 def tagsOf (fq : Bool) (recs : List GRec) (multiline : Bool) : String :=
   let q := recs.any fun g => match g.qual with
     | some (c :: _) => c = 64 || c = 43
@@ -224,6 +228,7 @@ def tagsOf (fq : Bool) (recs : List GRec) (multiline : Bool) : String :=
     ++ (if q then " qual@+" else "") ++ (if recs.any (fun g => g.desc.isSome) then " desc" else "")
     ++ (if recs.any (fun g => g.id.isEmpty) then " noid" else "")
     ++ (if recs.any (fun g => isNonAscii g.id || (g.desc.map isNonAscii).getD false) then " utf8" else "")
+    ++ (if recs.all (textRec fq) then " text" else " nontext")
 
 /-- layout records -/
 def parseWidths (s : String) : Option (List Nat) := parseNatList s
